@@ -820,7 +820,7 @@ func TestC10(t *testing.T) {
 	if explicit {
 		return
 	}
-	vcore.Check(t, vcore.N(600, 2500), func(rt *rapid.T) {
+	vcore.Check(t, vcore.N(600, 7500), func(rt *rapid.T) {
 		c := gen(rt)
 		v, s := run(c)
 		account(c, s)
